@@ -215,6 +215,64 @@ def run(tier, replay=None):
                         chk.violation("assemble prior != call prior with flat frequencies over all haplotypes",
                                       {**case, "assemble": ai, "call": impl[g]}, "C05/assemble_prior/flat-call")
 
+    # ---------------- assemble prior over large haplotype spaces (many SNVs): values, not sums
+    n_big = {"warm": 5, "quick": 400, "thorough": 4000}[tier]
+    lines, meta = [], []
+    for _ in range(n_big):
+        bits = r.choice([1, 2, 5, 10, 20, 27, 30, 40, 50, 60])
+        U = 2 ** bits if r.random() < 0.7 else 3 ** r.randint(1, 37)
+        F = r.choice(INBREEDING + [0.999])
+        ploidy = r.choice([2, 3, 4, 6, 8, 12])
+        # random partition of the ploidy into doses (excess of large doses)
+        doses, left = [], ploidy
+        while left > 0:
+            d = r.randint(1, left) if r.random() < 0.6 else 1
+            doses.append(d); left -= d
+        r.shuffle(doses)
+        dosage = []
+        for d in doses:
+            dosage += [d] + [0] * (d - 1)
+        lines.append(" ".join(["prior.asm", str(U), C.rat_str(F)] + [str(d) for d in dosage]))
+        meta.append((U, F, ploidy, doses, dosage))
+    ans = drv.ask(lines)
+    for (U, F, ploidy, doses, dosage), a, line in zip(meta, ans, lines):
+        logU = math.log(U)
+        ai = prob(asm_prior(np.array(dosage, dtype=np.int8), logU, inbreeding=F))
+        am = C.parse_rat(a)
+        chk.count(f"assemble-prior:big:log2U~{int(math.log2(U)) // 10 * 10}")
+        chk.case(line, max(doses) >= 3 and F > 0 and U > 2 ** 20)
+        case = {"unique_haplotypes": U, "inbreeding": F, "dosage": dosage}
+        lm = C.frac_log(am)
+        li = math.log(ai) if ai > 0 else -math.inf
+        if not C.close_log(li, lm, rel=1e-9):
+            chk.disagreement("assemble log_genotype_prior != model assemblePrior (large haplotype space)", {**case, "impl_log": li, "model_log": lm})
+        # the documented Dirichlet-multinomial with flat dispersion (1-F)/(F U), independently
+        Ff = Fraction(float(F))
+        coef = Fraction(math.factorial(ploidy))
+        for d in doses:
+            coef /= math.factorial(d)
+        if Ff == 0:
+            truth = coef / Fraction(U) ** ploidy
+        else:
+            A = (1 - Ff) / Ff
+            al = A / U
+            truth = coef / rising(A, ploidy)
+            for d in doses:
+                truth *= rising(al, d)
+        lt = C.frac_log(truth)
+        if not C.close_log(li, lt, rel=1e-9):
+            chk.violation("assemble genotype prior differs from the Dirichlet-multinomial with flat dispersion over all haplotypes",
+                          {**case, "impl_log": li, "expected_log": lt}, "C05/assemble_prior/formula")
+        # ... and equals the call prior with flat frequencies over the same number of haplotypes
+        g = []
+        for i, d in enumerate(doses):
+            g += [i] * d
+        if U >= len(doses) and U < 2 ** 62:
+            lc = float(call_prior(np.array(g, dtype=np.int64), U, inbreeding=F, frequencies=None))
+            if not C.close_log(li, lc, rel=1e-9):
+                chk.violation("assemble prior != call prior with flat frequencies over all haplotypes",
+                              {**case, "assemble_log": li, "call_log": lc}, "C05/assemble_prior/flat-call")
+
     # ---------------- permutations count and dosage extraction
     lines, meta = [], []
     for _ in range({"warm": 5, "quick": 150, "thorough": 1500}[tier]):
